@@ -91,3 +91,527 @@ func VerifC06_V2AddReadBack() {
 	verif.Assert(err == nil, "all-keys")
 	verif.Assert(len(all) == 2, "two-keys")
 }
+
+// ---- a back-end decorator: records every stored blob as a sink and can inject one fault ----
+
+type verifBackend struct {
+	backendAPI.Backend
+	calls     int
+	faultAt   int    // call ordinal (over Put/Rename/RenameNX/Get) at which the fault strikes, -1 = never
+	faultMode int    // 0 = call fails with an error, 1 = crash before the call, 2 = crash after the call
+	crashed   bool
+}
+
+type verifCrash struct{}
+
+var verifErrIO = backendAPI.ErrInvalidPath // any error value serves as "I/O error"
+
+func (b *verifBackend) step() (fail bool, crashAfter bool) {
+	n := b.calls
+	b.calls++
+	if n != b.faultAt {
+		return false, false
+	}
+	switch b.faultMode {
+	case 0:
+		return true, false
+	case 1:
+		b.crashed = true
+		panic(verifCrash{})
+	}
+	return false, true
+}
+
+func (b *verifBackend) Put(path string, data []byte) error {
+	verif.Sink("put", data)
+	fail, after := b.step()
+	if fail {
+		return verifErrIO
+	}
+	err := b.Backend.Put(path, data)
+	if after {
+		b.crashed = true
+		panic(verifCrash{})
+	}
+	return err
+}
+
+func (b *verifBackend) Rename(o, n string) error {
+	fail, after := b.step()
+	if fail {
+		return verifErrIO
+	}
+	err := b.Backend.Rename(o, n)
+	if after {
+		b.crashed = true
+		panic(verifCrash{})
+	}
+	return err
+}
+
+func (b *verifBackend) RenameNX(o, n string) error {
+	fail, after := b.step()
+	if fail {
+		return verifErrIO
+	}
+	err := b.Backend.RenameNX(o, n)
+	if after {
+		b.crashed = true
+		panic(verifCrash{})
+	}
+	return err
+}
+
+func (b *verifBackend) Close() error { return nil } // the underlying store outlives every handle
+
+func verifWrap(be backendAPI.Backend) *verifBackend { return &verifBackend{Backend: be, faultAt: -1} }
+
+func verifPairKey(priv, pub []byte) api.KeyDescription {
+	return api.KeyDescription{ValidSince: verifT0, ValidUntil: verifT1,
+		Data: []api.KeyData{{Format: api.ThemisKeyPairFormat, PublicKey: verifDup(pub), PrivateKey: verifDup(priv)}}}
+}
+
+// VerifC07_V2NoKeyInClear: nothing handed to the back end, and no export bundle, depends on the private or
+// symmetric key bytes other than through encryption (non-interference over the secret bytes).
+func VerifC07_V2NoKeyInClear() {
+	suite := verifSuite("")
+	be := verifWrap(backend.NewInMemory())
+	ks := verifOpen(be, suite)
+	sk := verif.Bytes("symkey", 32)
+	priv := verif.Bytes("privkey", 45)
+	pub := verif.Bytes("pubkey", 45)
+	verif.Secret(sk)
+	verif.Secret(priv)
+	r1, err := ks.OpenKeyRingRW("client/a/storage-sym")
+	if err != nil {
+		return
+	}
+	s1, err := r1.AddKey(verifSymKey(sk))
+	verif.Assert(err == nil, "add-sym")
+	r1.SetCurrent(s1)
+	r2, err := ks.OpenKeyRingRW("client/a/storage")
+	if err != nil {
+		return
+	}
+	s2, err := r2.AddKey(verifPairKey(priv, pub))
+	verif.Assert(err == nil, "add-pair")
+	r2.SetCurrent(s2)
+	if verif.Choose("export", 0, 1) == 1 {
+		exSuite := verifSuite("-export")
+		bundle, err := ks.(*KeyStore).ExportKeyRings([]string{"client/a/storage-sym", "client/a/storage"}, exSuite, 2) // ExportPrivateKeys
+		verif.Assert(err == nil, "export")
+		if err == nil {
+			verif.Sink("export", bundle)
+		}
+	}
+	verif.Reach("written")
+	verif.NoLeak("no-key-material-in-clear")
+}
+
+// VerifC07_V2RingBoundToPath: a key ring blob copied to another ring path (other owner, or other purpose of the
+// same owner; short and 128+ character identities) does not load there, or at least its key cannot be read.
+func VerifC07_V2RingBoundToPath() {
+	suite := verifSuite("")
+	be := backend.NewInMemory()
+	ks := verifOpen(be, suite)
+	long := ""
+	if verif.Choose("long-id", 0, 1) == 1 {
+		for i := 0; i < 128; i++ {
+			long += "f"
+		}
+	}
+	var src, dst string
+	switch verif.Choose("case", 0, 2) {
+	case 0: // other owner
+		src, dst = "client/"+long+"a/storage-sym", "client/"+long+"b/storage-sym"
+	case 1: // same owner, other purpose
+		src, dst = "client/"+long+"a/hmac-sym", "client/"+long+"a/storage-sym"
+	case 2: // another level of the tree
+		src, dst = "client/"+long+"a/storage-sym", "poison-record/"+long+"a/storage-sym"
+	}
+	key := verif.Bytes("key", 32)
+	ring, err := ks.OpenKeyRingRW(src)
+	if err != nil {
+		return
+	}
+	seq, err := ring.AddKey(verifSymKey(key))
+	if err != nil {
+		return
+	}
+	ring.SetCurrent(seq)
+	blob, err := be.Get(src + keyringSuffix)
+	verif.Assert(err == nil, "source-blob-exists")
+	if err != nil {
+		return
+	}
+	verif.Assert(be.Put(dst+keyringSuffix, verifDup(blob)) == nil, "copy")
+	ks2 := verifOpen(be, suite)
+	r2, err := ks2.OpenKeyRing(dst)
+	verif.Reach("opened-copy")
+	if err != nil {
+		return // refused: bound to its path
+	}
+	got, err := r2.SymmetricKey(seq, api.ThemisSymmetricKeyFormat)
+	verif.Assert(err != nil, "copied-ring-does-not-yield-keys")
+	_ = got
+}
+
+// VerifC07_V2TamperEvident: replacing any single byte of a stored key ring by any other value is detected when the
+// ring is read (or, where DER allows an equivalent spelling, the ring read is identical).
+func VerifC07_V2TamperEvident() {
+	suite := verifSuite("")
+	be := backend.NewInMemory()
+	ks := verifOpen(be, suite)
+	key := verif.Bytes("key", 32)
+	ring, err := ks.OpenKeyRingRW("client/a/storage-sym")
+	if err != nil {
+		return
+	}
+	seq, err := ring.AddKey(verifSymKey(key))
+	if err != nil {
+		return
+	}
+	ring.SetCurrent(seq)
+	path := "client/a/storage-sym" + keyringSuffix
+	blob, _ := be.Get(path)
+	pos := verif.Choose("pos", 0, len(blob)-1)
+	nv := verif.U8("newbyte")
+	verif.Assume(nv != blob[pos])
+	mod := verifDup(blob)
+	mod[pos] = nv
+	be.Rename(path, path+".orig")
+	be.Put(path, mod)
+	ks2 := verifOpen(be, suite)
+	r2, err := ks2.OpenKeyRing("client/a/storage-sym")
+	verif.Reach("read-tampered")
+	if err != nil {
+		return
+	}
+	got, err := r2.SymmetricKey(seq, api.ThemisSymmetricKeyFormat)
+	if err == nil {
+		verif.Assert(verif.Eq(got, key), "tampered-ring-same-key-or-rejected")
+	}
+	cur, err := r2.CurrentKey()
+	if err == nil {
+		verif.Assert(cur == seq, "tampered-ring-same-current-or-rejected")
+	}
+}
+
+// VerifC18_V2ExportImport: exporting rings and importing the bundle into another keystore (other master keys) makes
+// exactly those keys available with identical values, order and current marker; wrong access keys or a modified
+// bundle are rejected without changing the target.
+func VerifC18_V2ExportImport() {
+	srcSuite := verifSuite("")
+	dstSuite := verifSuite("-dst")
+	exSuite := verifSuite("-export")
+	srcBE := backend.NewInMemory()
+	src := verifOpen(srcBE, srcSuite)
+	k1 := verif.Bytes("k1", 32)
+	k2 := verif.Bytes("k2", 32)
+	priv := verif.Bytes("priv", 45)
+	pub := verif.Bytes("pub", 45)
+	r1, err := src.OpenKeyRingRW("client/a/storage-sym")
+	if err != nil {
+		return
+	}
+	s1, _ := r1.AddKey(verifSymKey(k1))
+	r1.SetCurrent(s1)
+	s2, _ := r1.AddKey(verifSymKey(k2)) // rotated once
+	r1.SetCurrent(s2)
+	r2, err := src.OpenKeyRingRW("client/a/storage")
+	if err != nil {
+		return
+	}
+	p1, _ := r2.AddKey(verifPairKey(priv, pub))
+	r2.SetCurrent(p1)
+	bundle, err := src.(*KeyStore).ExportKeyRings([]string{"client/a/storage-sym", "client/a/storage"}, exSuite, 2)
+	verif.Assert(err == nil, "export-no-error")
+	if err != nil {
+		return
+	}
+	dstBE := backend.NewInMemory()
+	dst := verifOpen(dstBE, dstSuite)
+	mode := verif.Choose("mode", 0, 2)
+	switch mode {
+	case 0:
+		ids, err := dst.(*KeyStore).ImportKeyRings(verifDup(bundle), exSuite, nil)
+		verif.Reach("imported")
+		verif.Assert(err == nil, "import-no-error")
+		if err != nil {
+			return
+		}
+		verif.Assert(len(ids) == 2, "two-rings-imported")
+		fresh := verifOpen(dstBE, dstSuite)
+		ir1, err := fresh.OpenKeyRing("client/a/storage-sym")
+		verif.Assert(err == nil, "imported-sym-ring-opens")
+		if err != nil {
+			return
+		}
+		cur, err := ir1.CurrentKey()
+		verif.Assert(err == nil, "imported-current")
+		verif.Assert(cur == s2, "imported-current-marker")
+		g2, err := ir1.SymmetricKey(s2, api.ThemisSymmetricKeyFormat)
+		verif.Assert(err == nil, "imported-k2-readable")
+		if err == nil {
+			verif.Assert(verif.Eq(g2, k2), "imported-k2-identical")
+		}
+		g1, err := ir1.SymmetricKey(s1, api.ThemisSymmetricKeyFormat)
+		verif.Assert(err == nil, "imported-k1-readable")
+		if err == nil {
+			verif.Assert(verif.Eq(g1, k1), "imported-k1-identical")
+		}
+		all, _ := ir1.AllKeys()
+		verif.Assert(len(all) == 2, "imported-history-length")
+		ir2, err := fresh.OpenKeyRing("client/a/storage")
+		verif.Assert(err == nil, "imported-pair-ring-opens")
+		if err != nil {
+			return
+		}
+		gp, err := ir2.PrivateKey(p1, api.ThemisKeyPairFormat)
+		verif.Assert(err == nil, "imported-private-readable")
+		if err == nil {
+			verif.Assert(verif.Eq(gp, priv), "imported-private-identical")
+		}
+		gpub, err := ir2.PublicKey(p1, api.ThemisKeyPairFormat)
+		if err == nil {
+			verif.Assert(verif.Eq(gpub, pub), "imported-public-identical")
+		}
+	case 1: // wrong access keys (at least one of the two differs)
+		other := verifSuite("-other")
+		verif.Assume(verif.Not(verif.And(
+			verif.Eq(verif.Bytes("master-enc-other", 32), verif.Bytes("master-enc-export", 32)),
+			verif.Eq(verif.Bytes("master-sig-other", 32), verif.Bytes("master-sig-export", 32)))))
+		_, err := dst.(*KeyStore).ImportKeyRings(verifDup(bundle), other, nil)
+		verif.Reach("wrong-keys")
+		verif.Assert(err != nil, "wrong-access-keys-rejected")
+		paths, _ := dstBE.ListAll()
+		verif.Assert(len(paths) == 0, "target-unchanged-after-rejected-import")
+	case 2: // one byte of the bundle replaced
+		pos := verif.Choose("pos", 0, len(bundle)-1)
+		nv := verif.U8("newbyte")
+		verif.Assume(nv != bundle[pos])
+		mod := verifDup(bundle)
+		mod[pos] = nv
+		_, err := dst.(*KeyStore).ImportKeyRings(mod, exSuite, nil)
+		verif.Reach("modified-bundle")
+		if err != nil {
+			paths, _ := dstBE.ListAll()
+			verif.Assert(len(paths) == 0, "target-unchanged-after-rejected-import")
+			return
+		}
+		// accepted only if it still carries the same keys (an equivalent spelling)
+		fresh := verifOpen(dstBE, dstSuite)
+		ir1, err := fresh.OpenKeyRing("client/a/storage-sym")
+		if err == nil {
+			g2, err := ir1.SymmetricKey(s2, api.ThemisSymmetricKeyFormat)
+			if err == nil {
+				verif.Assert(verif.Eq(g2, k2), "modified-bundle-same-keys-or-rejected")
+			}
+		}
+	}
+}
+
+// ---- C08: one fault (error, crash before, crash after) at any back-end call of a write ----
+
+func verifRun(f func() error) (err error, crashed bool) {
+	defer func() {
+		if r := recover(); r != nil {
+			if _, ok := r.(verifCrash); ok {
+				crashed = true
+				return
+			}
+			panic(r)
+		}
+	}()
+	return f(), false
+}
+
+// VerifC08_V2FaultDuringWrite: a ring with one key; a second key is added (or the first is destroyed) while one
+// back-end call fails or the process dies right before/after it. Afterwards, through a fresh handle: the ring opens,
+// the old key reads with the same bytes unless the destroy completed, the ring is entirely the old or entirely the
+// new version, and the keystore accepts a further write.
+func VerifC08_V2FaultDuringWrite() {
+	suite := verifSuite("")
+	mem := backend.NewInMemory()
+	be := verifWrap(mem)
+	ks := verifOpen(be, suite)
+	k1 := verif.Bytes("k1", 32)
+	k2 := verif.Bytes("k2", 32)
+	k3 := verif.Bytes("k3", 32)
+	path := "client/a/storage-sym"
+	ring, err := ks.OpenKeyRingRW(path)
+	if err != nil {
+		return
+	}
+	s1, err := ring.AddKey(verifSymKey(k1))
+	if err != nil {
+		return
+	}
+	ring.SetCurrent(s1)
+	op := verif.Choose("op", 0, 1)
+	fa := verif.Choose("fault-at", 0, 2)
+	be.faultAt = be.calls + fa
+	be.faultMode = verif.Choose("fault-mode", 0, 2)
+	// the scenario is part of every assertion id, so that a recorded finding stays specific to its fault point
+	scen := "/" + []string{"add", "destroy"}[op] + "/call" + string(rune('0'+fa)) + "/" + []string{"error", "crash-before", "crash-after"}[be.faultMode]
+	opErr, crashed := verifRun(func() error {
+		if op == 0 {
+			_, err := ring.AddKey(verifSymKey(k2))
+			return err
+		}
+		return ring.DestroyKey(s1)
+	})
+	be.faultAt = -1
+	verif.Reach("after-fault")
+	if !crashed && opErr != nil {
+		// same handle: a failed write leaves nothing pending and the handle keeps working
+		verif.Assert(!ring.(*KeyRing).pendingUpdates(), "failed-write-leaves-no-pending-transaction"+scen)
+	}
+	// restart: fresh handle on the surviving storage
+	ks2 := verifOpen(verifWrap(mem), suite)
+	r2, err := ks2.OpenKeyRingRW(path)
+	verif.Assert(err == nil, "ring-opens-after-fault"+scen)
+	if err != nil {
+		return
+	}
+	all, _ := r2.AllKeys()
+	got1, err1 := r2.SymmetricKey(s1, api.ThemisSymmetricKeyFormat)
+	if op == 0 {
+		verif.Assert(err1 == nil, "old-key-still-readable"+scen)
+		if err1 == nil {
+			verif.Assert(verif.Eq(got1, k1), "old-key-same-bytes"+scen)
+		}
+		verif.Assert(len(all) == 1 || len(all) == 2, "old-or-new-version"+scen)
+		if len(all) == 2 {
+			got2, err := r2.SymmetricKey(all[0], api.ThemisSymmetricKeyFormat)
+			verif.Assert(err == nil, "new-key-complete"+scen)
+			if err == nil {
+				verif.Assert(verif.Eq(got2, k2), "new-key-same-bytes"+scen)
+			}
+		}
+		if !crashed && opErr == nil {
+			verif.Assert(len(all) == 2, "successful-add-is-durable"+scen)
+		}
+	} else {
+		st, _ := r2.State(s1)
+		if st == api.KeyDestroyed {
+			verif.Assert(err1 != nil, "destroyed-key-has-no-material"+scen)
+		} else {
+			verif.Assert(err1 == nil, "undestroyed-key-still-readable"+scen)
+			if err1 == nil {
+				verif.Assert(verif.Eq(got1, k1), "undestroyed-key-same-bytes"+scen)
+			}
+		}
+	}
+	// the keystore keeps accepting writes
+	s3, err := r2.AddKey(verifSymKey(k3))
+	verif.Assert(err == nil, "follow-up-write-accepted"+scen)
+	if err == nil {
+		got3, err := r2.SymmetricKey(s3, api.ThemisSymmetricKeyFormat)
+		verif.Assert(err == nil, "follow-up-key-readable"+scen)
+		if err == nil {
+			verif.Assert(verif.Eq(got3, k3), "follow-up-key-same-bytes"+scen)
+		}
+	}
+	rings, err := ks2.ListKeyRings()
+	verif.Assert(err == nil, "listing-works"+scen)
+	verif.Assert(len(rings) == 1, "listing-shows-the-ring-once"+scen)
+}
+
+// ---- C17: two handles on one back end, operations interleaved in every order ----
+
+type verifRefKey struct {
+	state    api.KeyState
+	hasData  bool
+	material []byte
+}
+
+// VerifC17_V2TwoWriters: handles A and B (each with its own, possibly stale, view) run 3 operations in an arbitrary
+// order on one ring. After every step the stored ring equals the reference obtained by applying exactly the
+// successful operations once, in order; a failed operation changes nothing; sequence numbers are 1..n.
+func VerifC17_V2TwoWriters() {
+	suite := verifSuite("")
+	mem := backend.NewInMemory()
+	path := "client/a/storage-sym"
+	seed := verifOpen(verifWrap(mem), suite)
+	r0, err := seed.OpenKeyRingRW(path)
+	if err != nil {
+		return
+	}
+	k0 := verif.Bytes("k0", 32)
+	if _, err := r0.AddKey(verifSymKey(k0)); err != nil {
+		return
+	}
+	ref := []verifRefKey{{api.KeyPreActive, true, k0}}
+	refCurrent := -1
+	handles := make([]api.MutableKeyRing, 2)
+	for i := range handles {
+		h, err := verifOpen(verifWrap(mem), suite).OpenKeyRingRW(path)
+		if err != nil {
+			return
+		}
+		handles[i] = h
+	}
+	steps := 3 + verif.Tier()
+	for step := 0; step < steps; step++ {
+		tag := string(rune('0' + step))
+		h := handles[verif.Choose("handle"+tag, 0, 1)]
+		op := verif.Choose("op"+tag, 0, 3)
+		var opErr error
+		switch op {
+		case 0:
+			nk := verif.Bytes("new"+tag, 32)
+			var seq int
+			seq, opErr = h.AddKey(verifSymKey(nk))
+			if opErr == nil {
+				ref = append(ref, verifRefKey{api.KeyPreActive, true, nk})
+				verif.Assert(seq == len(ref), "seqnum-is-next")
+			}
+		case 1:
+			opErr = h.SetCurrent(1)
+			if opErr == nil {
+				refCurrent = 1
+			}
+		case 2:
+			opErr = h.SetState(1, api.KeyActive)
+			if opErr == nil {
+				ref[0].state = api.KeyActive
+			}
+		case 3:
+			opErr = h.DestroyKey(1)
+			if opErr == nil {
+				ref[0].state = api.KeyDestroyed
+				ref[0].hasData = false
+			}
+		}
+		// observer with a fresh handle
+		obs, err := verifOpen(verifWrap(mem), suite).OpenKeyRing(path)
+		verif.Assert(err == nil, "observer-opens-ring")
+		if err != nil {
+			return
+		}
+		all, _ := obs.AllKeys()
+		verif.Assert(len(all) == len(ref), "key-count-matches-successful-adds")
+		for i := range ref {
+			st, err := obs.State(i + 1)
+			verif.Assert(err == nil, "seqnums-are-1-to-n")
+			verif.Assert(st == ref[i].state, "state-matches-successful-operations")
+			mat, err := obs.SymmetricKey(i+1, api.ThemisSymmetricKeyFormat)
+			if ref[i].hasData {
+				verif.Assert(err == nil, "material-present-unless-destroyed")
+				if err == nil {
+					verif.Assert(verif.Eq(mat, ref[i].material), "material-unchanged")
+				}
+			} else {
+				verif.Assert(err != nil, "destroyed-material-gone")
+			}
+		}
+		cur, err := obs.CurrentKey()
+		if refCurrent < 0 {
+			verif.Assert(err != nil, "no-current-key-yet")
+		} else {
+			verif.Assert(err == nil && cur == refCurrent, "current-matches-successful-operations")
+		}
+	}
+	verif.Reach("all-steps-done")
+}
